@@ -7,7 +7,7 @@ from typing import Dict, List, Optional
 from ..cfg import CFG
 from ..core import Ctx
 from ..model import body_stmts, canon, dotted, kwarg, norm, walk_no_nested
-from .common import assigned_value, check_sampler_init, enclosing, resolve_local, stores_to
+from .common import assigned_value, bound_args, check_sampler_init, conditions_at, enclosing, expand_locals, resolve_local, stores_to
 
 CLS = "StatisticalContinuumSampler"
 PAIRS = {"count": ("_avg_nb_units_per_annotator", "_std_nb_units_per_annotator"),
@@ -17,8 +17,15 @@ PAIRS = {"count": ("_avg_nb_units_per_annotator", "_std_nb_units_per_annotator")
 
 def _normal(e: ast.AST, sn: str) -> Optional[str]:
     """role of a np.random.normal(self.<avg>, self.<std>) call, or '!<why>'"""
-    if isinstance(e, ast.Call) and norm(e.func) in ("np.random.normal", "numpy.random.normal") and len(e.args) == 2 and not e.keywords:
-        a, b = norm(e.args[0]), norm(e.args[1])
+    if isinstance(e, ast.Call) and norm(e.func) in ("np.random.normal", "numpy.random.normal") and len(e.args) + len(e.keywords) == 2 and \
+            all(k.arg in ("loc", "scale") for k in e.keywords) and len(e.args) <= 2:
+        kw = {k.arg: k.value for k in e.keywords}
+        pos = list(e.args)
+        a_ = pos[0] if pos else kw.get("loc")
+        b_ = pos[1] if len(pos) > 1 else kw.get("scale")
+        if a_ is None or b_ is None:
+            return None
+        a, b = norm(a_), norm(b_)
         for role, (pa, pb) in PAIRS.items():
             if a == f"{sn}.{pa}" and b == f"{sn}.{pb}":
                 return role
@@ -67,6 +74,8 @@ def rule_generation(ctx: Ctx):
         inner = v
         shape_ok = isinstance(inner, ast.Call) and dotted(inner.func) == "abs" and isinstance(inner.args[0], ast.Call) and dotted(inner.args[0].func) == "int"
         core = _strip(v, ("abs", "int", "round"))
+        if isinstance(core, ast.Name):       # the draw named by an explaining local (bound once, in this block)
+            core = resolve_local(f.node, core)
         role = _normal(core, sn)
         okc = shape_ok and role == "count"
         ctx.check(okc, "R-C15-2", f, nd[0], "number of units = |int(N(avg_nb_units, std_nb_units))|",
@@ -202,8 +211,11 @@ def rule_estimators(ctx: Ctx):
                 ifs = enclosing(f.node, c, (ast.If,))
                 loops = enclosing(f.node, c, (ast.For,))
                 upd = [s for s in (loops[-1].body if loops else []) if isinstance(s, ast.Assign) and norm(s.targets[0]) == prev and norm(s.value) == cur]
-                okgap = bool(loops) and norm(loops[-1].iter) == f"{sn}._reference_continuum" and bool(upd) and loops[-1].body.index(upd[0]) == len(loops[-1].body) - 1 and \
-                    len(ifs) == 1 and "!=" in norm(ifs[0].test) and any(c is x for b in ifs[0].orelse for x in ast.walk(b))
+                # reached exactly when the annotator of this item is the annotator of the previous one (either polarity / branch order)
+                same = [(t, pol) for t, pol in conditions_at(f.node, c) if isinstance(t, ast.Compare) and len(t.ops) == 1 and isinstance(t.ops[0], (ast.Eq, ast.NotEq))]
+                same_ok = len(same) == 1 and isinstance(same[0][0].ops[0], ast.Eq if same[0][1] else ast.NotEq)
+                okgap = bool(loops) and norm(expand_locals(f.node, loops[-1].iter)) == f"{sn}._reference_continuum" and bool(upd) and \
+                    loops[-1].body.index(upd[0]) == len(loops[-1].body) - 1 and len(ifs) == 1 and same_ok
             ctx.check(okgap, "R-C15-3", f, same_annot[0] if same_annot else None,
                       "gap: start of a unit minus end of the previous unit of the same annotator (no gap across annotators)",
                       bad_detail="gaps are not `start - previous end` between consecutive units of the same annotator", key="list:gap")
@@ -230,7 +242,9 @@ def rule_estimators(ctx: Ctx):
             f"{g.self_name}._set_nb_units_information"}
     okI = calls and calls[0] == "super().init_sampling" and set(calls[1:]) == want
     sup = [s.value for s in body_stmts(g.node) if isinstance(s, ast.Expr) and isinstance(s.value, ast.Call) and norm(s.value.func) == "super().init_sampling"]
-    okI = okI and sup and [norm(a) for a in sup[0].args] == g.params[1:3]
+    base_init = ctx.model.functions.get("AbstractContinuumSampler.init_sampling")
+    ba_ = bound_args(sup[0], base_init) if sup and base_init is not None else None
+    okI = okI and sup and ba_ is not None and [norm(ba_.get(p)) for p in base_init.params[1:3]] == g.params[1:3]
     if okI:
         from ..cfg import EXIT
         gc = CFG(g.node)
@@ -248,12 +262,12 @@ def rule_custom(ctx: Ctx):
              "_avg_gap": "avg_gap", "_std_gap": "std_gap", "_avg_unit_duration": "avg_duration", "_std_unit_duration": "std_duration"}
     for fld, par in table.items():
         st = [s for s in walk_no_nested(f.node) if isinstance(s, ast.Assign) and norm(s.targets[0]) == f"{sn}.{fld}"]
-        ctx.check(len(st) == 1 and norm(st[0].value) == par and par in f.params, "R-C15-4", f, st[0] if st else None, f"self.{fld} = {par}",
+        ctx.check(len(st) == 1 and norm(expand_locals(f.node, st[0].value)) == par and par in f.params, "R-C15-4", f, st[0] if st else None, f"self.{fld} = {par}",
                   bad_detail=f"custom parameter `{par}` is not stored in `{fld}` (a draw would use another quantity's parameter)", key=f"custom:{fld}")
     cat = [s for s in walk_no_nested(f.node) if isinstance(s, ast.Assign) and norm(s.targets[0]) == f"{sn}._categories"]
-    ctx.check(len(cat) == 1 and norm(cat[0].value) == "np.array(categories)", "R-C15-4", f, cat[0] if cat else None, "custom categories stored as given", key="custom:categories")
+    ctx.check(len(cat) == 1 and norm(expand_locals(f.node, cat[0].value)) == "np.array(categories)", "R-C15-4", f, cat[0] if cat else None, "custom categories stored as given", key="custom:categories")
     wt = [s for s in walk_no_nested(f.node) if isinstance(s, ast.Assign) and norm(s.targets[0]) == f"{sn}._categories_weight"]
-    okw = len(wt) == 2 and norm(wt[0].value) == "None" and norm(wt[1].value) == "np.array(categories_weight)" and \
+    okw = len(wt) == 2 and norm(wt[0].value) == "None" and norm(expand_locals(f.node, wt[1].value)) == "np.array(categories_weight)" and \
         any(isinstance(i, ast.If) and norm(i.test) == "categories_weight is not None" and any(wt[1] is x for x in ast.walk(i)) for i in walk_no_nested(f.node))
     ctx.check(okw, "R-C15-4", f, wt[-1] if wt else None, "custom weights stored when given, None (uniform) otherwise", key="custom:weights")
     dm = [c for c in walk_no_nested(f.node) if isinstance(c, ast.Call) and norm(c.func) == "super().init_sampling"]
